@@ -63,7 +63,7 @@ func ruleC02VersionGate(c *Ctx) {
 		name, val string
 		want      bool
 	}{{"empty", "", true}, {"draft-07 http", d7http, true}, {"draft-07 https", d7https, true}, {"2020-12", d2020, true},
-		{"other", "https://json-schema.org/draft/2019-09/schema", false}, {"other-near", d2020 + "#", false}, {"other-draft4", "http://json-schema.org/draft-04/schema#", false}}
+		{"other", "https://json-schema.org/draft/2019-09/schema", false}, {"other-near", d2020 + "#", false}, {"other-draft7-no-hash", "http://json-schema.org/draft-07/schema", false}, {"other-case", "HTTP://JSON-SCHEMA.ORG/DRAFT-07/SCHEMA#", false}, {"other-space", " " + d2020, false}, {"other-hash", "#", false}, {"other-draft4", "http://json-schema.org/draft-04/schema#", false}}
 	for _, cl := range classes {
 		res, ok := evalStringFn(pred, func(v ssa.Value) (string, bool) {
 			if p, isP := v.(*ssa.Parameter); isP && p.Parent() == pred {
